@@ -15,6 +15,8 @@ def one(kind, d):
         p = subprocess.run('patch -p1 -s -d %s < %s/%s/patch.diff' % (tmp, base, d), shell=True, capture_output=True, text=True)
         if p.returncode:
             return d, 'PATCH-FAIL'
+        prog = os.path.join(base, d, 'check.py' if 'ben' in kind else 'demo.py')
+        raw = subprocess.run('cd %s && PYTHONPATH=%s/src timeout 300 /venv/bin/python -W ignore %s' % (tmp, tmp, prog), shell=True, capture_output=True, text=True).returncode
         code = ("import sys, ast, os; sys.path.insert(0, %r)\nfrom sa.core import Repo\nr = Repo(root=%r)\n"
                 "for m, t in r.trees.items():\n    open(r.files[m], 'w').write(ast.unparse(t))\nprint(len(r.renamed))" % (V, tmp))
         q = subprocess.run(['/venv/bin/python', '-W', 'ignore', '-c', code], capture_output=True, text=True)
@@ -22,7 +24,8 @@ def one(kind, d):
             return d, 'NORMALISE-FAIL ' + q.stderr[-300:]
         prog = os.path.join(base, d, 'check.py' if 'ben' in kind else 'demo.py')
         run = subprocess.run('cd %s && PYTHONPATH=%s/src timeout 300 /venv/bin/python -W ignore %s' % (tmp, tmp, prog), shell=True, capture_output=True, text=True)
-        return d, run.returncode, q.stdout.strip(), run.stderr[-300:] if run.returncode and 'ben' in kind else ''
+        # (some check programs have expectations relative to today's date and fail on the raw tree as well: the criterion is "same verdict as the raw patched tree")
+        return d, (0 if run.returncode == raw else 1) if 'ben' in kind else run.returncode, q.stdout.strip(), ('raw exit %s, normalised exit %s ' % (raw, run.returncode)) + (run.stderr[-200:] if run.returncode != raw else '')
     finally:
         shutil.rmtree(tmp, ignore_errors=True)
 
